@@ -35,6 +35,12 @@ DOMAINS = {
     'float1': (((0.5, 1.5),), ()),
     'float2': (((0.25, 0.75),), ()),
     'float-exp': (((1e-05, 5e-05),), ()),
+    'float-2dec': (((0.29, 0.35),), ()),
+    'float-2dec-b': (((0.57, 0.58), (4.35, 4.36)), ()),
+    'float-neg': (((-1.15, -0.29),), ()),
+    'float-points': (((0.5, 0.5), (2.5, 2.5)), ()),
+    'float-point': (((0.29, 0.29),), ()),
+    'int-points': (((3, 3), (9, 9)), ()),
     'int-float': (((1, 2.5),), ()),
     'mixed': (((0, 2),), ('x', 'y')),
     'empty': ((), ()),
@@ -384,7 +390,7 @@ class Controller:
     def __init__(self, prefix):
         self.prefix = list(prefix)
         self.points = []      # (kind, menu)
-        self.choices = []
+        self.taken = []
 
     def _pick(self, kind, menu):
         i = len(self.points)
@@ -395,7 +401,7 @@ class Controller:
                 raise Divergence('choice %d out of range at point %d (%s menu %d)' % (c, i, kind, len(menu)))
         else:
             c = 0
-        self.choices.append(c)
+        self.taken.append(c)
         engine.tick()
         return menu[c]
 
@@ -432,7 +438,17 @@ class Controller:
         return self._pick('randrange', menu)
 
     def choices(self, population, weights=None, cum_weights=None, k=1):
-        return [self.choice(population) for _ in range(k)]
+        population = list(population)
+        if cum_weights is not None and weights is None:
+            weights = [c - p for c, p in zip(cum_weights, [0] + list(cum_weights)[:-1])]
+        if weights is not None:
+            weights = list(weights)
+            if len(weights) != len(population):
+                raise ValueError('The number of weights does not match the population')
+            if not sum(weights) > 0:
+                raise ValueError('Total of weights must be greater than zero')
+            population = [x for x, w in zip(population, weights) if w > 0]      # elements that can be drawn at all
+        return [population[self._pick('choices', list(range(len(population))))] for _ in range(k)]
 
     def sample(self, population, k):
         pool = list(population)
@@ -568,9 +584,9 @@ def _run_generation(model, leaves_only, pre, domkey, prefix):
         out.append(Fail('generation-shape', str(exc)[:200]))
         return ctl, out
     if stripped != base:
-        out.append(Fail('generation-changed-something-else', {'after': cm._safe_str(ob), 'choices': ctl.choices}))
+        out.append(Fail('generation-changed-something-else', {'after': cm._safe_str(ob), 'choices': ctl.taken}))
     if bad_values:
-        out.append(Fail('generated-value-outside-domain:%s' % domkey, {'values': repr(bad_values[:3]), 'choices': ctl.choices}))
+        out.append(Fail('generated-value-outside-domain:%s' % domkey, {'values': repr(bad_values[:3]), 'choices': ctl.taken}))
     probs = bd.wellformed(fm)
     if probs:
         out.append(Fail('generation-breaks-wellformedness', probs[:3]))
@@ -592,18 +608,18 @@ def _explore(model, leaves_only, pre, domkey, bound):
             fails.setdefault(f.clause, f)
         if ctl is None:
             return
-        if ctl.choices[:len(prefix)] != list(prefix):
-            raise Divergence('replayed prefix diverged: %s vs %s' % (ctl.choices, prefix))
+        if ctl.taken[:len(prefix)] != list(prefix):
+            raise Divergence('replayed prefix diverged: %s vs %s' % (ctl.taken, prefix))
         for i in range(len(prefix), len(ctl.points)):
-            if deviations(ctl.choices[:i]) + 1 > bound:
+            if deviations(ctl.taken[:i]) + 1 > bound:
                 break
             for alt in range(1, len(ctl.points[i][1])):
-                explore(ctl.choices[:i] + [alt])
+                explore(ctl.taken[:i] + [alt])
     explore([])
     # determinism: the default execution replayed twice gives identical observations
     c1, o1 = _run_generation(model, leaves_only, pre, domkey, [])
     c2, o2 = _run_generation(model, leaves_only, pre, domkey, [])
-    if c1 is not None and (c1.choices != c2.choices or [f.clause for f in o1] != [f.clause for f in o2]):
+    if c1 is not None and (c1.taken != c2.taken or [f.clause for f in o1] != [f.clause for f in o2]):
         raise Divergence('default execution is not deterministic')
     if c1 is not None and not c1.points and DOMAINS[domkey] not in (None, ((), ())) \
             and any(n not in _expected_targets(model, leaves_only, pre)[1] for n in _expected_targets(model, leaves_only, pre)[0]):
